@@ -97,6 +97,54 @@ func H_C08_write(v, lo, hi int) {
 	verifrt.Assert(verifrt.SameBytes(conn.out, want), "frame-as-specified")
 }
 
+// H_C08_bigframe: large frames (word counts lo..hi) with zero payload except symbolic first and last bytes:
+// header as specified, and the peer reads the same message back.
+func H_C08_bigframe(v, lo, hi int) {
+	w := lo + verifrt.Len(hi-lo)
+	msg := make([]byte, 4*w)
+	if w > 0 {
+		msg[0], msg[4*w-1] = verifrt.Byte(), verifrt.Byte()
+	}
+	conn := &fakeConn{}
+	m, err := initMode(variantOf(v), conn)
+	verifrt.Assert(err == nil, "new-no-error")
+	if err != nil {
+		return
+	}
+	pn := verifrt.Catch(func() { err = m.WriteMsg(msg) })
+	verifrt.Assert(!pn && err == nil, "bigframe-write-ok")
+	if pn || err != nil {
+		return
+	}
+	var hdr []byte
+	if v == 0 {
+		hdr = refAbridgedFrame(nil)
+		if w >= 127 {
+			hdr = []byte{0x7f, byte(w), byte(w >> 8), byte(w >> 16)}
+		} else {
+			hdr = []byte{byte(w)}
+		}
+	} else {
+		n := 4 * w
+		hdr = []byte{byte(n), byte(n >> 8), byte(n >> 16), byte(n >> 24)}
+	}
+	verifrt.Assert(len(conn.out) == len(hdr)+len(msg), "bigframe-length")
+	if len(conn.out) >= len(hdr) {
+		verifrt.Observe("hdr", conn.out[:len(hdr)])
+		verifrt.Assert(verifrt.SameBytes(conn.out[:len(hdr)], hdr), "bigframe-header-as-specified")
+	}
+	peer, _ := initMode(variantOf(v), &fakeConn{in: conn.out})
+	var got []byte
+	pn = verifrt.Catch(func() { got, err = peer.ReadMsg() })
+	verifrt.Assert(!pn && err == nil, "bigframe-read-ok")
+	if !pn && err == nil {
+		verifrt.Assert(len(got) == len(msg), "bigframe-read-length")
+		if len(got) == len(msg) && w > 0 {
+			verifrt.Assert(got[0] == msg[0] && got[4*w-1] == msg[4*w-1], "bigframe-read-ends")
+		}
+	}
+}
+
 // H_C08_unaligned: abridged refuses lengths that are not a multiple of 4 and writes nothing; intermediate
 // carries every length.
 func H_C08_unaligned(v, maxlen int) {
